@@ -382,4 +382,5 @@ def run(ctx):
         out.append(witness.rule("C16", ['OptionalNeedsOption', 'OptionalNullableNeedsOption', 'UnknownKeysRejected', 'IncompatibleCombinationsRejected', 'UnsupportedItemRejected', 'UnusualIdentifiersExpand', 'DefaultedGenericsExpand'], "C16.R6"))
     out.append(T.type_param_walker_rule(ctx.syn, "C16"))
     out.append(T.empty_repetition_rule(ctx.syn, "C16"))
+    out.append(T.export_test_params_rule(ctx.syn, "C16"))
     return out
